@@ -283,6 +283,9 @@ def borrow(tier, seed):
                     what = "nested accesses observed other values than the model: expected %s, observed %s" % (exp, o["obs"])
             elif not all(o["free"]) or not o["clone_ok"]:
                 what = "a column is still borrowed after the accesses ended (free=%s clone_ok=%s)" % (o["free"], o["clone_ok"])
+            if o.get("leaked", 0) or o.get("zleaked", 0) or o.get("anomalies", 0):
+                violations.append({"tags": ["C04", "C10"], "what": "component values leaked or mis-dropped around runtime-borrowed accesses (a refused clone must not leave clones behind): leaked=%s zero-sized=%s anomalies=%s" % (o.get("leaked"), o.get("zleaked"), o.get("anomalies")),
+                                   "at": i, "event": {"script": _nest_sexpr(h), "observed": o}, "origin": {"engine": "borrow", "cfg": cfgname, "depth": depth}})
             if what:
                 violations.append({"tags": ["C11"], "what": what, "at": i,
                                    "event": {"script": _nest_sexpr(h), "expected": exp, "observed": o},
